@@ -495,7 +495,12 @@ func (r *runner) report(co *O, ctx string, c Cfg, orig *failure) string {
 	case "list":
 		sig = fmt.Sprintf("obj=%s cfg=%s ctx=list mode=%s class=%s fail=%s", co.E[0].leafKind(), r.min.cfgPart(co, mc), mode, co.E[0].leafClass(), kind)
 	default:
-		sig = fmt.Sprintf("obj=struct cfg=%s ctx=as-is mode=%s class=%s fail=%s", r.min.cfgPart(co, mc), mode, co.shape(), kind)
+		if cl := r.nestedCulprit(co, mc); cl != nil {
+			// one leaf is responsible, whatever the container: name the leaf and the failure family
+			sig = fmt.Sprintf("obj=%s cfg=%s ctx=nested mode=%s class=%s fail=%s", cl.leafKind(), r.min.cfgPart(co, mc), mode, cl.leafClass(), family(kind))
+		} else {
+			sig = fmt.Sprintf("obj=struct cfg=%s ctx=as-is mode=%s class=%s fail=%s", r.min.cfgPart(co, mc), mode, co.shape(), kind)
+		}
 	}
 	r.sigs[sig]++
 	if r.sigs[sig] == 1 {
@@ -512,6 +517,86 @@ func (r *runner) report(co *O, ctx string, c Cfg, orig *failure) string {
 	}
 	return sig
 }
+
+// family is the coarse class of a failure kind used where the exact kind
+// depends on the container the responsible leaf sits in.
+func family(kind string) string {
+	switch {
+	case strings.HasSuffix(kind, "-internal"):
+		return kind
+	case strings.HasPrefix(kind, "wire-read"), strings.HasPrefix(kind, "wire-write"):
+		return "wire-error"
+	case strings.HasPrefix(kind, "wire-"):
+		return "wire-value"
+	case strings.HasPrefix(kind, "print-"):
+		return "print-error"
+	case strings.HasPrefix(kind, "read-"):
+		return "read-error"
+	case strings.HasPrefix(kind, "pretty-"):
+		return "pretty"
+	}
+	return "value"
+}
+
+// neutralLeaf is an unsuspicious leaf of the same kind as l that is neither l
+// nor the minimiser's filler.
+func neutralLeaf(l *O) *O {
+	switch l.K {
+	case "int":
+		return leaf("int", "7")
+	case "nil", "t":
+		return leaf("sym", "a")
+	}
+	return plainLeaf(l.K)
+}
+
+func substitute(o *O, l *O, by *O) *O {
+	if !o.composite() {
+		if o.K == l.K && o.V == l.V {
+			return by.clone()
+		}
+		return o.clone()
+	}
+	c := &O{K: o.K, V: o.V, D: o.D, E: []*O{}}
+	for _, e := range o.E {
+		c.E = append(c.E, substitute(e, l, by))
+	}
+	if o.T != nil {
+		c.T = substitute(o.T, l, by)
+	}
+	return c
+}
+
+// nestedCulprit finds the one leaf of a minimal failing structure whose
+// replacement by an unsuspicious leaf of the same kind makes the failure go
+// away; nil if there is no such leaf or more than one.
+func (r *runner) nestedCulprit(mo *O, c Cfg) *O {
+	if !mo.composite() {
+		return nil
+	}
+	var found []*O
+	seen := map[string]bool{}
+	leavesOf(mo, func(l *O) {
+		k := l.K + "\x00" + l.V
+		if seen[k] || isFiller(l) {
+			return
+		}
+		seen[k] = true
+		by := neutralLeaf(l)
+		if by == nil || (by.K == l.K && by.V == l.V) {
+			return
+		}
+		if r.min.kindOf(substitute(mo, l, by), c) == "" {
+			found = append(found, l)
+		}
+	})
+	if len(found) == 1 {
+		return found[0]
+	}
+	return nil
+}
+
+func isFiller(l *O) bool { return l.K == "int" && l.V == "1" }
 
 // explainLeaf reports every way leaf l fails under c in a canonical context
 // and tells whether it does.
